@@ -21,7 +21,8 @@ from pathlib import Path
 VERIF = Path(__file__).resolve().parents[1]
 REPO = Path(os.environ.get('EOS_REPO', '/repo'))
 LEAN = VERIF / 'lean'
-EVID = VERIF / 'evidence'
+# runs against a scratch copy of the repository (EOS_REPO, mutation trials) must not overwrite the evidence
+EVID = VERIF / ('evidence' if str(REPO) == '/repo' else 'evidence_scratch')
 REPLAYS = VERIF / 'replays'
 CORPUS = VERIF / 'corpus'
 LEAN_BIN = '/opt/veriftools/lean/bin'
